@@ -391,6 +391,33 @@ def context_calls():
         y.get_kappa()
         y.get_deltaMax(True)
 
+    def derived_then_set(objs):
+        # objects DERIVED from the live ones (shuffles with nothing / one residue left to move, a swap of a position with itself,
+        # a second wrapper around a copy) and then changed through their own setters: the originals must not notice
+        for o in list(objs.values()):
+            n = len(o.get_sequence())
+            kids = []
+            for fz in (set(range(n)), set(range(1, n)), list(range(n + 3)), set()):
+                try:
+                    kids.append(o.get_shuffled_sequence(fz))
+                except Exception:  # noqa
+                    pass
+            try:
+                from localcider.sequenceParameters import SequenceParameters as SP
+                kids.append(SP(SeqObj=o.SeqObj.swapRes(0, 0)))
+                kids.append(SP(SeqObj=o.SeqObj.full_shuffle(set(range(n)))))
+            except Exception:  # noqa
+                pass
+            for kid in kids:
+                try:
+                    kid.clear_phosphosites()
+                    kid.set_phosphosites(list(range(1, n + 1)))
+                    kid.set_HTMLColorResiduePalette({a: "olive" for a in "ACDEFGHIKLMNPQRSTVWY"})
+                    kid.get_kappa_after_phosphorylation()
+                    kid.get_deltaMax(True)
+                except Exception:  # noqa
+                    pass
+
     def moves(objs):
         so = objs["A"].SeqObj
         so.swapRes(0, 3)
@@ -465,7 +492,7 @@ def context_calls():
                     f()
                 except Exception:  # noqa
                     pass
-    return [("degenerate-arguments", degenerate_calls), ("show-plots", show_plots), ("save-plots", save_plots), ("moves-and-permutants", moves), ("sequence-file", from_file),
+    return [("degenerate-arguments", degenerate_calls), ("setters-on-derived-objects", derived_then_set), ("show-plots", show_plots), ("save-plots", save_plots), ("moves-and-permutants", moves), ("sequence-file", from_file),
             ("setters-on-other-objects", other_object), ("wang-landau-run", wl_run), ("rejected-calls", rejected_calls)]
 
 
@@ -677,7 +704,7 @@ def run(tier, seed, t0):
              "result must be bit-identical to the same call made first on a fresh object that is ALONE in a pristine world, stored sequence and "
              "phosphosites unchanged; merge validation: up to %d alternative histories per state are expanded too and must agree "
              "on every result and successor state. Phase 1b (independent of state merging): for every call i, a fresh world runs i and "
-             "then every call of the same object in turn (all ordered same-object pairs). Phase 3: after each of 8 groups of calls (incl. accepted-but-degenerate arguments: absent kappa_X groups, full-length windows, boundary pH) from "
+             "then every call of the same object in turn (all ordered same-object pairs). Phase 3: after each of 9 groups of calls (incl. setters used on objects derived from the live ones by shuffles with nothing left to move) (incl. accepted-but-degenerate arguments: absent kappa_X groups, full-length windows, boundary pH) from "
              "other API areas (show plots, save plots, moves and permutants, reading a sequence file, setters on other objects, a "
              "Wang-Landau run, rejected calls) every read-only call must still answer as on a fresh object. Phase 2: %d inputs chosen to collide on coarse cache keys (equal charge counts at "
              "different lengths, equal composition in different spellings, permutations, equal strings): for every input a, a fresh "
